@@ -63,6 +63,8 @@ func buildConfigs() []*Config {
 			c.Service, c.InitOrder, c.BidQ = true, true, "notfound"
 		case "svc-catchup-found": // the real service; the order is open on chain at start-up with the provider's own open bid
 			c.Service, c.InitOrder, c.BidQ = true, true, "found-open"
+		case "catchup-queryfails-bidonchain": // the query fails with a generic error while the provider's open bid exists on chain
+			c.ExistingBid, c.Faults, c.ChainBid = true, []string{kBidQuery}, true
 		case "catchup-queryfails":
 			c.ExistingBid, c.Faults = true, []string{kBidQuery}
 		}
@@ -120,6 +122,15 @@ func buildConfigs() []*Config {
 	for _, sh := range []string{"catchup-found-active", "catchup-found-lost", "catchup-found-closed"} {
 		add("quick", ladderBase, sh, true, false, 1, evShutdown)
 	}
+
+	// the existing-bid query fails with an error other than "bid not found" while the provider DOES hold an open bid
+	// on the order (chain model): the handler must not bid (order.go gives the order up; no close-bid can be demanded
+	// for a bid it could not learn about)
+	for _, ev := range []string{evClosed, evWon, evLost, evShutdown} {
+		add("quick", ladder11, "catchup-queryfails-bidonchain", true, false, 1, ev)
+		add("thorough", ladder22, "catchup-queryfails-bidonchain", true, false, 2, ev)
+	}
+	add("quick", ladder11, "catchup-queryfails-bidonchain", true, true, 1, evShutdown)
 
 	// service level (real NewService / service.run / catch-up / de-duplication / drain; group without signature
 	// requirement, so the real attribute-signature service is running but never asked): the order is open on chain
